@@ -1,4 +1,5 @@
 import SaVerif.Model.Naming
+import SaVerif.Lemmas.Literal
 /-! Helper lemmas about M-STR / generated names (core Lean only). -/
 namespace SaVerif.Naming
 open SaVerif.Ident
@@ -331,5 +332,244 @@ theorem single_label_len (L : Nat) (hL : 6 ≤ L) (n : Str) :
   · rename_i ht
     simp only
     omega
+
+
+/-! ## labels of a columns clause -/
+
+/-- invariant of the `_generate_columns_plus_names` loop (with `anon_for_dupe_key`):
+    every label emitted so far is a key of `names` or a dedupe label with an index below
+    `dedupe_hash`; keys of `names` are never dedupe labels -/
+structure GInv (st : GState) (em : List Lab) : Prop where
+  emitted : ∀ l ∈ em, (st.names.lookup l).isSome = true ∨ ∃ i c t, l = .dedupe i c t ∧ i < st.dh
+  keys : ∀ l c, st.names.lookup l = some c → ∀ i c' t, l ≠ .dedupe i c' t
+
+theorem lookup_cons_lab (k k' : Lab) (v : Col) (l : List (Lab × Col)) :
+    ((k', v) :: l).lookup k = if k = k' then some v else l.lookup k := by
+  simp only [List.lookup_cons]
+  by_cases h : k = k'
+  · simp [h]
+  · have : (k == k') = false := by simpa using h
+    simp [this, h]
+
+theorem ginv_insert (st : GState) (em : List Lab) (h : GInv st em) (l : Lab) (c : Col)
+    (hnone : st.names.lookup l = none) (hnd : ∀ i c' t, l ≠ .dedupe i c' t) :
+    l ∉ em ∧ GInv { st with names := (l, c) :: st.names } (l :: em) := by
+  refine ⟨?_, ?_, ?_⟩
+  · intro hm
+    rcases h.emitted l hm with h1 | ⟨i, c', t, e, _⟩
+    · rw [hnone] at h1; cases h1
+    · exact hnd i c' t e
+  · intro l' hl'
+    simp only [List.mem_cons] at hl'
+    rcases hl' with e | hl'
+    · subst e; left; simp [lookup_cons_lab]
+    · rcases h.emitted l' hl' with h1 | h1
+      · left
+        simp only [lookup_cons_lab]
+        split
+        · rfl
+        · exact h1
+      · exact Or.inr h1
+  · intro l' c' hl' i c'' t
+    simp only [lookup_cons_lab] at hl'
+    split at hl'
+    · rename_i e; subst e; exact hnd i c'' t
+    · exact h.keys l' c' hl' i c'' t
+
+theorem ginv_dedupe (st : GState) (em : List Lab) (h : GInv st em) (c : Col) (t : Bool) :
+    Lab.dedupe st.dh c t ∉ em ∧ GInv { st with dh := st.dh + 1 } (Lab.dedupe st.dh c t :: em) := by
+  refine ⟨?_, ?_, ?_⟩
+  · intro hm
+    rcases h.emitted _ hm with h1 | ⟨i, c', t', e, hi⟩
+    · cases hl : st.names.lookup (Lab.dedupe st.dh c t) with
+      | none => rw [hl] at h1; cases h1
+      | some c0 => exact h.keys _ c0 hl st.dh c t rfl
+    · cases e; omega
+  · intro l' hl'
+    simp only [List.mem_cons] at hl'
+    rcases hl' with e | hl'
+    · subst e; exact Or.inr ⟨st.dh, c, t, rfl, by simp⟩
+    · rcases h.emitted l' hl' with h1 | ⟨i, c', t', e, hi⟩
+      · exact Or.inl h1
+      · exact Or.inr ⟨i, c', t', e, by simp; omega⟩
+  · exact h.keys
+
+theorem genStep_fresh (tq : Bool) (st : GState) (em : List Lab) (h : GInv st em) (c : Col) :
+    (genStep tq true st c).2 ∉ em ∧ GInv (genStep tq true st c).1 ((genStep tq true st c).2 :: em) := by
+  unfold genStep
+  simp only
+  cases hl : st.names.lookup (Lab.plain (if tq = true then tqLabel c else c.name)) with
+  | none =>
+    simp only
+    exact ginv_insert st em h _ c hl (by intro i c' t e; cases e)
+  | some c0 =>
+    simp only
+    by_cases hid : (c0.id != c.id) = true
+    · simp only [hid, if_true, Bool.true_and]
+      cases hr : st.names.lookup (Lab.anon c tq) with
+      | none =>
+        simp only [Option.isSome_none, Bool.false_eq_true, if_false]
+        exact ginv_insert st em h _ c hr (by intro i c' t e; cases e)
+      | some c1 =>
+        simp only [Option.isSome_some, if_true]
+        exact ginv_dedupe st em h c tq
+    · simp only [hid, Bool.false_eq_true, if_false, if_true]
+      exact ginv_dedupe st em h c tq
+
+theorem genRun_nodup (tq : Bool) : ∀ (cols : List Col) (st : GState) (em : List Lab), GInv st em →
+    (genRun tq true st cols).Nodup ∧ ∀ l ∈ genRun tq true st cols, l ∉ em := by
+  intro cols
+  induction cols with
+  | nil => intro st em _; simp [genRun]
+  | cons c rest ih =>
+    intro st em h
+    obtain ⟨hf, hinv⟩ := genStep_fresh tq st em h c
+    obtain ⟨hnd, hdis⟩ := ih _ _ hinv
+    simp only [genRun]
+    refine ⟨List.nodup_cons.2 ⟨?_, hnd⟩, ?_⟩
+    · intro hm; exact hdis _ hm (by simp)
+    · intro l hl
+      simp only [List.mem_cons] at hl
+      rcases hl with e | hl
+      · subst e; exact hf
+      · intro hm; exact hdis l hl (by simp [hm])
+
+/-! ## bound-parameter keys -/
+
+theorem derive_keys_nodup (tmpl : Bind) (hu : tmpl.unique = true) : ∀ (ids : List Nat), ids.Nodup →
+    ((deriveText tmpl false ids).map (·.key)).Nodup := by
+  intro ids
+  induction ids with
+  | nil => intro _; simp [deriveText]
+  | cons a t ih =>
+    intro hn
+    obtain ⟨ha, ht⟩ := List.nodup_cons.1 hn
+    simp only [deriveText, List.map_cons, List.map_map] at ih ⊢
+    refine List.nodup_cons.2 ⟨?_, ih ht⟩
+    intro hm
+    obtain ⟨b, hb, e⟩ := List.mem_map.1 hm
+    simp only [Function.comp, cloneBind, hu, Bool.not_false, Bool.true_and, if_true,
+      BKey.anon.injEq] at e
+    exact ha (e.1 ▸ hb)
+
+/-! ## `prefix_anon_map` -/
+
+theorem underscore_split (d1 d2 ds1 ds2 : Str) (h1 : ∀ c ∈ ds1, Literal.isDigit c = true)
+    (h2 : ∀ c ∈ ds2, Literal.isDigit c = true) (h : d1 ++ 95 :: ds1 = d2 ++ 95 :: ds2) :
+    d1 = d2 ∧ ds1 = ds2 := by
+  rcases List.append_eq_append_iff.1 h with ⟨a', hc, hb⟩ | ⟨c', ha, hd⟩
+  · cases a' with
+    | nil => simp at hb hc; exact ⟨hc.symm, hb⟩
+    | cons x a'' =>
+      simp only [List.cons_append, List.cons.injEq] at hb
+      have : (95 : Nat) ∈ ds1 := by rw [hb.2]; simp
+      have := h1 95 this
+      simp [Literal.isDigit] at this
+  · cases c' with
+    | nil => simp at ha hd; exact ⟨ha, hd.symm⟩
+    | cons x c'' =>
+      simp only [List.cons_append, List.cons.injEq] at hd
+      have : (95 : Nat) ∈ ds2 := by rw [hd.2]; simp
+      have := h2 95 this
+      simp [Literal.isDigit] at this
+
+theorem natStr_inj (a b : Nat) (h : Literal.natStr a = Literal.natStr b) : a = b := by
+  have ha := (Literal.natStr_spec a).2.2
+  rw [h, (Literal.natStr_spec b).2.2] at ha
+  exact ha.symm
+
+def amCounter (m : AMap) (d : Str) : Nat := (m.idx.lookup d).getD 1
+
+/-- invariant of the anonymous-name map: every value is `derived_<c>` with `c` below the
+    next counter of `derived`, and values determine keys -/
+structure AInv (m : AMap) : Prop where
+  shape : ∀ k v, m.vals.lookup k = some v → ∃ c, v = k.2 ++ 95 :: Literal.natStr c ∧ c < amCounter m k.2
+  inj : ∀ k1 k2 v, m.vals.lookup k1 = some v → m.vals.lookup k2 = some v → k1 = k2
+
+theorem ainv_empty : AInv AMap.empty := by
+  constructor <;> intro k <;> simp [AMap.empty]
+
+theorem lookup_cons_str {β : Type} (k k' : Str) (v : β) (l : List (Str × β)) :
+    ((k', v) :: l).lookup k = if k = k' then some v else l.lookup k := by
+  simp only [List.lookup_cons]
+  by_cases h : k = k'
+  · simp [h]
+  · have : (k == k') = false := by simpa using h
+    simp [this, h]
+
+theorem amCounter_cons (m : AMap) (vals : List ((Nat × Str) × Str)) (d0 : Str) (cnt : Nat) (d : Str) :
+    amCounter { vals := vals, idx := (d0, cnt) :: m.idx } d = if d = d0 then cnt else amCounter m d := by
+  simp only [amCounter, lookup_cons_str]
+  split <;> simp
+
+theorem amGet_spec (m : AMap) (h : AInv m) (k : Nat × Str) :
+    AInv (amGet m k).2 ∧ (amGet m k).2.vals.lookup k = some (amGet m k).1 ∧
+    (∀ k' v, m.vals.lookup k' = some v → (amGet m k).2.vals.lookup k' = some v) := by
+  unfold amGet
+  cases hl : m.vals.lookup k with
+  | some v => exact ⟨h, hl, fun _ _ hh => hh⟩
+  | none =>
+    simp only
+    have hc0 : (List.lookup k.2 m.idx).getD 1 = amCounter m k.2 := rfl
+    rw [hc0]
+    generalize hcdef : amCounter m k.2 = c0
+    have hnew : ∀ k', m.vals.lookup k' = some (k.2 ++ 95 :: Literal.natStr c0) → False := by
+      intro k' hk'
+      obtain ⟨c, hc1, hc2⟩ := h.shape k' _ hk'
+      obtain ⟨hd, hs⟩ := underscore_split _ _ _ _ (Literal.natStr_spec _).2.1 (Literal.natStr_spec _).2.1 hc1
+      have := natStr_inj _ _ hs
+      rw [← hd, hcdef] at hc2; omega
+    refine ⟨⟨?_, ?_⟩, ?_, ?_⟩
+    · intro k' v hv
+      simp only [lookup_cons_key] at hv
+      split at hv
+      · rename_i e; subst e; cases hv
+        exact ⟨c0, rfl, by rw [amCounter_cons]; simp⟩
+      · obtain ⟨c, hc1, hc2⟩ := h.shape k' v hv
+        refine ⟨c, hc1, ?_⟩
+        rw [amCounter_cons]; split
+        · rename_i e; rw [e, hcdef] at hc2; omega
+        · exact hc2
+    · intro k1 k2 v h1 h2
+      simp only [lookup_cons_key] at h1 h2
+      split at h1 <;> split at h2
+      · rename_i e1 e2; rw [e1, e2]
+      · cases h1; exact absurd h2 (fun hh => hnew k2 hh)
+      · cases h2; exact absurd h1 (fun hh => hnew k1 hh)
+      · exact h.inj k1 k2 v h1 h2
+    · simp [lookup_cons_key]
+    · intro k' v hv
+      simp only [lookup_cons_key]
+      split
+      · rename_i e; subst e; rw [hl] at hv; cases hv
+      · exact hv
+
+/-- names handed out for a sequence of keys -/
+def amRun : AMap → List (Nat × Str) → List Str
+  | _, [] => []
+  | m, k :: rest => (amGet m k).1 :: amRun (amGet m k).2 rest
+
+theorem amRun_spec : ∀ (ks : List (Nat × Str)) (m : AMap), AInv m →
+    ∃ m', AInv m' ∧ (∀ k v, m.vals.lookup k = some v → m'.vals.lookup k = some v) ∧
+      ∀ (i : Nat) k v, ks[i]? = some k → (amRun m ks)[i]? = some v → m'.vals.lookup k = some v := by
+  intro ks
+  induction ks with
+  | nil => intro m h; exact ⟨m, h, fun _ _ hh => hh, fun i k v hk => by simp at hk⟩
+  | cons k rest ih =>
+    intro m h
+    obtain ⟨s1, s2, s3⟩ := amGet_spec m h k
+    obtain ⟨m', t1, t2, t3⟩ := ih _ s1
+    refine ⟨m', t1, fun k' v hv => t2 k' v (s3 k' v hv), ?_⟩
+    intro i k' v hk hv
+    cases i with
+    | zero =>
+      simp only [List.getElem?_cons_zero, Option.some.injEq] at hk
+      simp only [amRun, List.getElem?_cons_zero, Option.some.injEq] at hv
+      subst hk; subst hv
+      exact t2 _ _ s2
+    | succ j =>
+      simp only [List.getElem?_cons_succ] at hk
+      simp only [amRun, List.getElem?_cons_succ] at hv
+      exact t3 j k' v hk hv
 
 end SaVerif.Naming
